@@ -202,7 +202,9 @@ example : Ar.read (Ar.file 1700000000 [⟨b!"debian-binary", b!"2.0\n"⟩, ⟨b!
     with leading-zero octal numbers, NUL-filled strings and checksum; bodies padded to 512; two zero blocks) an
     independent reader that verifies magic and checksum recovers exactly the members that were written – every
     header field, every body, in order – for every member list a plain header can express (names and link names
-    of at most 100 bytes, owner/group names of at most 32, numbers within their octal fields, no NUL in strings) -/
+    of at most 100 bytes, owner/group names of at most 32, no NUL in strings, numbers within their octal fields –
+    in GNU headers within the 7- and 11-byte binary form archive/tar falls back to, which nfpm reaches with Go's
+    directory mode bit on tree directories in ipk, apk and archlinux) -/
 theorem tar_roundtrip (ms : List Tar.Member) (hm : ∀ m ∈ ms, Tar.MemberOK m) : Tar.read (Tar.archive ms) = some ms :=
   Tar.read_archive ms hm
 
